@@ -506,6 +506,7 @@ Definition cases : list (cli_config * cli_outcome) := [
 	}
 	runs += targetStage(meta, tier, base, bin)
 	runs += ruleFaultStage(meta, tier, base, rdir, bin)
+	runs += profileStage(meta, base, bin)
 	runs += crashStage(meta, tier, base, rdir, bin, outDir)
 	runs += dispatchStage(meta, tier, base, bin, outDir, common.NewRand(1, "c19-dispatch"))
 	meta.Distribution["binary_runs"] = runs
